@@ -69,23 +69,28 @@ def write_evidence(ctx, mod, nviol_new, nknown, stage=None):
         # a run against a scratch tree (seeded change, pre-fix archive) must not replace the evidence of /repo
         d = "/var/tmp/esutil-verif-scratch-evidence"
     os.makedirs(d, exist_ok=True)
-    side = os.path.join(d, ".%s.asan.json" % ctx.pid)
-    if stage == "asan":
+    STAGES = {"asan": "AddressSanitizer build of the five extensions",
+              "pyopt": "optimised interpreter (python -O: assert statements and `if __debug__` blocks of the library are stripped)"}
+    if stage in STAGES:
         # side file, embedded by the main thorough run that follows
-        with open(side, "w") as f:
-            json.dump({"tier_bounds": "quick", "sanitizer": "AddressSanitizer build of the five extensions",
+        with open(os.path.join(d, ".%s.%s.json" % (ctx.pid, stage)), "w") as f:
+            json.dump({"tier_bounds": "quick", "environment": STAGES[stage],
                        "states": states, "transitions": trans, "violations": nviol_new,
                        "wall_s": ev["wall_s"], "tree": build.repo_root(), "time": time.time()}, f)
         return
-    if ctx.tier == "thorough" and os.path.exists(side):
-        try:
-            with open(side) as f:
-                sd = json.load(f)
-            if time.time() - sd.get("time", 0) < 6 * 3600 and sd.get("tree") == build.repo_root():
-                sd.pop("time", None)
-                cov["asan_stage"] = sd
-        except Exception:
-            pass
+    if ctx.tier == "thorough":
+        for st in STAGES:
+            side = os.path.join(d, ".%s.%s.json" % (ctx.pid, st))
+            if not os.path.exists(side):
+                continue
+            try:
+                with open(side) as f:
+                    sd = json.load(f)
+                if time.time() - sd.get("time", 0) < 6 * 3600 and sd.get("tree") == build.repo_root():
+                    sd.pop("time", None)
+                    cov[st + "_stage"] = sd
+            except Exception:
+                pass
     tmp = os.path.join(d, ".%s.json.tmp" % ctx.pid)
     with open(tmp, "w") as f:
         json.dump(ev, f, indent=1, sort_keys=True)
@@ -98,7 +103,7 @@ def main():
     ap.add_argument("pid")
     ap.add_argument("--tier", default=os.environ.get("VERIF_TIER", "quick"))
     ap.add_argument("--replay", default=None)
-    ap.add_argument("--stage", default=None, help="'asan': sanitizer stage of the thorough tier (side evidence file)")
+    ap.add_argument("--stage", default=None, help="'asan' / 'pyopt': extra stages of the thorough tier (side evidence file)")
     a = ap.parse_args()
     pid = a.pid.upper()
     tier = a.tier if a.tier in ("quick", "thorough") else "quick"
@@ -254,7 +259,7 @@ def main():
         st = sum(p.stats.get("states", 0) for p in ctx.parts.values())
         tr = sum(p.stats.get("transitions", 0) for p in ctx.parts.values())
         print("%s OK tier=%s%s seed=%d states=%d transitions=%d parts=%d wall=%.1fs" % (
-            pid, tier, " (sanitizer stage)" if a.stage else "", seed, st, tr, len(ctx.parts), time.time() - ctx.t0))
+            pid, tier, (" (%s stage)" % a.stage) if a.stage else "", seed, st, tr, len(ctx.parts), time.time() - ctx.t0))
         return 0
     finally:
         ctx.cleanup()
